@@ -16,7 +16,7 @@ THEOREMS: list[str] = []  # filled from Properties/C05.lean by the registry (see
 RULE = (
     "corpus; exhaustive grammar strings with <=2 (quick) / <=3 (thorough) operator-function-group nodes over atoms {a,b,2,3} "
     "x scopes; seeded random grammar strings (size 3..9 quick, ..14 thorough, longer atoms, 30-digit literals); same-level chains; "
-    "name= prefixes; non-trivial = distinct line whose string has >=1 operator and lies in the documented grammar (spec oracle)"
+    "name= prefixes; one expression object evaluated under a sequence of scopes (with an unbound name / a zero in between); non-trivial = distinct line whose string has >=1 operator and lies in the documented grammar (spec oracle)"
 )
 
 
@@ -61,6 +61,21 @@ def cases(tier, rng, run):
         if not pyref.feasible(e, parse_scope(sc)):
             continue
         out.append(Case(f"EVAL\t{e}\t{sc}", "rand"))
+        if rng.random() < 0.25:
+            # the same expression object evaluated several times: an evaluation that fails half-way (an unbound name, a zero
+            # divisor) must leave nothing behind for the evaluations that follow
+            full = parse_scope(sc)
+            used = [k for k in full if re.search(rf"(?<![A-Za-z0-9_]){re.escape(k)}(?![A-Za-z0-9_])", e.split("=", 1)[-1])]
+            seq = [sc]
+            if used:
+                k = rng.choice(used)
+                seq.append(";".join(f"{a}:{b}" for a, b in full.items() if a != k))
+                z = ";".join(f"{a}:{0 if a == k else b}" for a, b in full.items())
+                if pyref.feasible(e, parse_scope(z)):
+                    seq.append(z)
+            rng.shuffle(seq)
+            seq.append(sc)
+            out.append(Case(f"EVALSEQ\t{e}\t{'|'.join(seq)}", "seq"))
         if rng.random() < 0.2:
             out.append(Case(f"PARSE\t{e}", "rand"))
     return out
@@ -75,6 +90,14 @@ def judge(case, impl_out, spec):
         return None
     if impl_out.startswith("err SyntaxError"):
         return "a string of the documented grammar is refused with SyntaxError"
+    if op == "EVALSEQ":
+        specs, outs = spec.split(" ## "), impl_out.split(" ## ")
+        if len(specs) != len(outs):
+            return f"{len(specs)} evaluations asked, {len(outs)} results"
+        for i, (sp, o) in enumerate(zip(specs, outs)):
+            if sp.startswith("G val ") and o != "val " + sp[6:]:
+                return f"evaluation {i + 1} of the same expression object: {o!r} differs from the arithmetic value {sp[6:]} (the evaluations before it: {outs[:i]})"
+        return None
     if op == "EVAL":
         if spec.startswith("G val "):
             if impl_out != "val " + spec[6:]:
